@@ -613,6 +613,20 @@ MUTANTS = [
         (PT_H, "                start.run_body( range_pool.back() );\n                range_pool.pop_back();", "                if (range_pool.size() < 7) start.run_body( range_pool.back() );\n                range_pool.pop_back();")]),
     dict(name='c05-seed3-count-rounded-up-by-adding-step', prop='C05', clause='D6', edits=[(PF_H,
         "        Index end = (last - first - Index(1)) / step + Index(1);", "        Index end = Index((last - first) + (step - Index(1))) / step;")]),
+    dict(name='c01-seed3-run-and-wait-handle-epilogue-on-exception-only', prop='C01', clause='D9', edits=[('include/oneapi/tbb/task_group.h',
+        """            execute_and_wait(*acs::release(h), context(), m_wait_vertex.get_context(), context());
+        }).on_completion([&] {""",
+        """            execute_and_wait(*acs::release(h), context(), m_wait_vertex.get_context(), context());
+        }).on_exception([&] {""")]),
+    dict(name='c01-group-wait-epilogue-on-exception-only', prop='C01', clause='D9', edits=[('include/oneapi/tbb/task_group.h',
+        """            d1::wait(m_wait_vertex.get_context(), context());
+        }).on_completion([&] {""",
+        """            d1::wait(m_wait_vertex.get_context(), context());
+        }).on_exception([&] {""")]),
+    dict(name='c01-group-wait-does-not-reset-context', prop='C01', clause='D9', edits=[('include/oneapi/tbb/task_group.h',
+        """            cancellation_status = m_context.is_group_execution_cancelled();
+            context().reset();""",
+        """            cancellation_status = m_context.is_group_execution_cancelled();""")]),
     dict(name='c02-seed4-mandatory-worker-bound-by-level-share', prop='C02', clause='D7', edits=[('src/tbb/market.cpp',
         "allotted = client.min_workers() > 0 && assigned < max_workers ? 1 : 0;", "allotted = client.min_workers() > 0 && assigned < assigned_per_priority ? 1 : 0;")]),
     dict(name='c02-mandatory-worker-only-while-level-has-demand', prop='C02', clause='D7', edits=[('src/tbb/market.cpp',
@@ -1423,6 +1437,21 @@ BENIGN = [
             my_max_load_factor = other.my_max_load_factor;
             my_segments = other.my_segments;
             internal_copy(other);""")]),
+    dict(name='c01-b-group-wait-epilogue-in-a-named-lambda', prop='C01', edits=[('include/oneapi/tbb/task_group.h',
+        """        try_call([&] {
+            d1::wait(m_wait_vertex.get_context(), context());
+        }).on_completion([&] {
+            // TODO: the reset method is not thread-safe. Ensure the correct behavior.
+            cancellation_status = m_context.is_group_execution_cancelled();
+            context().reset();
+        });""",
+        """        auto wait_body = [&] {
+            d1::wait(m_wait_vertex.get_context(), context());
+        };
+        try_call(wait_body).on_completion([&] {
+            cancellation_status = context().is_group_execution_cancelled();
+            context().reset();
+        });""")]),
     dict(name='c05-b-ring-step-by-conditional', prop='C05', edits=[(PT_H,
         "        my_tail = (my_tail + 1) % MaxCapacity;", "        my_tail = depth_t(my_tail + 1 == MaxCapacity ? 0 : my_tail + 1);")]),
     dict(name='c06-b-ring-back-step-by-conditional', prop='C06', edits=[(PT_H,
